@@ -23,10 +23,13 @@ IMPL_TIMEOUT = int(os.environ.get("VERIF_IMPL_TIMEOUT", "2400"))   # per worker 
 
 # ------------------------------------------------------------------ running both sides
 def run_impl_jobs(jobs, script="impl_c12.py"):
-    chunks = [jobs[i::WORKERS] for i in range(WORKERS)]
+    # more chunks than workers (each worker process pays ~5-10 s of imports): the pool hands them out as workers become
+    # free, so one chunk of expensive programs no longer decides the wall time
+    nch = WORKERS * (4 if len(jobs) >= 64 * WORKERS else 1)
+    chunks = [jobs[i::nch] for i in range(nch)]
     chunks = [ch for ch in chunks if ch]
     out = {}
-    with cf.ThreadPoolExecutor(len(chunks) or 1) as ex:
+    with cf.ThreadPoolExecutor(min(WORKERS, len(chunks)) or 1) as ex:
         for r in ex.map(lambda ch: common.run_impl(script, dict(jobs=ch), timeout=IMPL_TIMEOUT), chunks):
             for x in r["results"]:
                 out[x["id"]] = x
